@@ -231,7 +231,7 @@ func virtualInline(p *Prog) int {
 		body := fd.Body.List
 		objOf := func(o types.Object) types.Object { return o }
 		if callCount[f] != 1 {
-			if callCount[f] > 4 || depth > 0 || os.Getenv("GRIBILINT_SPLICE_MULTI") == "" {
+			if callCount[f] > 6 || depth > 0 || os.Getenv("GRIBILINT_SPLICE_MULTI") == "" {
 				return s // opaque call: judged by the simple-helper classification and the event summaries
 			}
 			cb, remap := cloneFuncBody(info, fd)
@@ -259,6 +259,11 @@ func virtualInline(p *Prog) int {
 				fr.Binds = map[types.Object]ast.Expr{}
 			}
 			fr.Binds[obj] = arg
+			if prev, seen := allParamBinds[obj]; seen && prev != arg {
+				allParamBinds[obj] = nil
+			} else if !seen {
+				allParamBinds[obj] = arg
+			}
 			if _, isSig := obj.Type().Underlying().(*types.Signature); isSig {
 				if prev, seen := funcParamBinds[obj]; seen && prev != arg {
 					funcParamBinds[obj] = nil // bound differently at several call sites (shared body): only decided while enumerating a frame
@@ -316,6 +321,12 @@ func virtualInline(p *Prog) int {
 		case *ast.RangeStmt:
 			// for … := range helper(…): the ranged expression is evaluated once, before the loop
 			scope = x.X
+		case *ast.IfStmt:
+			// if helper(…) {…} (no init statement): the condition is evaluated once, before the branches
+			if x.Init != nil {
+				return nil
+			}
+			scope = x.Cond
 		default:
 			return nil
 		}
@@ -323,6 +334,9 @@ func virtualInline(p *Prog) int {
 			var target *ast.CallExpr
 			if rs, isRange := s.(*ast.RangeStmt); isRange {
 				scope = rs.X
+			}
+			if is, isIf := s.(*ast.IfStmt); isIf {
+				scope = is.Cond
 			}
 			ast.Inspect(scope, func(n ast.Node) bool {
 				if target != nil {
@@ -379,6 +393,13 @@ func virtualInline(p *Prog) int {
 					replaced = true
 				} else {
 					replaced = replaceExpr(&ast.ExprStmt{X: rs.X}, target, use)
+				}
+			} else if is, isIf := s.(*ast.IfStmt); isIf {
+				if ast.Unparen(is.Cond) == ast.Expr(target) {
+					is.Cond = use
+					replaced = true
+				} else {
+					replaced = replaceExpr(&ast.ExprStmt{X: is.Cond}, target, use)
 				}
 			} else {
 				replaced = replaceExpr(s, target, use)
